@@ -16,7 +16,7 @@ Lemma slice_eqb_refl : forall s, slice_eqb s s = true.
 Proof. intros. unfold slice_eqb. rewrite !Nat.eqb_refl. reflexivity. Qed.
 
 Lemma producer_eqb_refl : forall p, producer_eqb p p = true.
-Proof. destruct p; cbn; rewrite ?Nat.eqb_refl, ?Z.eqb_refl; reflexivity. Qed.
+Proof. destruct p; cbn; rewrite ?Nat.eqb_refl, ?Z.eqb_refl; try reflexivity. destruct st; reflexivity. Qed.
 
 Lemma lobj_eqb_refl : forall x, lobj_eqb x x = true.
 Proof. intros. unfold lobj_eqb. rewrite slice_eqb_refl, producer_eqb_refl, Bool.eqb_reflx. reflexivity. Qed.
